@@ -282,7 +282,7 @@ SUBC = dict(HASHBITS=4, MASKBITS=4, PAIRCAP=4, MASKKIND="sensible", MIN_SKIPS=2,
             RKFAST=4, ONESHOT=8, MAXP=3, VBS=2, MAXRANK=1)
 MM_INV = ["FindIsLeftmost", "RFindIsRightmost", "IterIsGreedy", "RevIterIsGreedy", "EmptyNeedleEveryOffset", "NoPanic",
           "LinearFind", "LinearIter", "EmitReplay"]
-SO_INV = ["Mirror", "GreedyHeads", "LiftLemma", "EmitReplay"]
+SO_INV = ["Mirror", "GreedyHeads", "LiftLemma", "TruncLemma", "EmitReplay"]
 TW_INV = ["FwdOK", "RevOK", "NoUnderflow", "FwdNoSkip", "RevNoSkip", "PrepLinear", "SearchLinear", "EmitReplay"]
 B1_INV = ["RabinKarpFwdOK", "RabinKarpRevOK", "ShiftOrOK", "RKCost", "EmitReplay"]
 PP_INV = ["FindOK", "PrefilterOK", "PortableOK", "Safe", "NoBad", "Linear", "EmitReplay"]
@@ -371,7 +371,14 @@ def substring(ctx, parts, groups, classes, mm_bounds, lifts=None):
         nvec, nn_ = vec_of(ctx, res, nm, "nearmiss.ndjson")
         ctx.traces += nn_
         mm_replay(ctx, binp, nvec, groups, classes, 10, forces=("avx2", "fallback"), tag="nearmiss")
-    ctx.evaluations += sum_exec(ctx, ["mm_exec", "prefilter_exec"])
+    # optional vehicles for the architecture-specific substring code (searcher / prefilter selection, minimum lengths,
+    # packed-pair wrappers): the simd128 copy natively on all vectors, NEON (quick) + big-endian + 32-bit under Miri on a
+    # stratified sample with boundary truncations
+    wb = simd128_bin(ctx)
+    if wb:
+        replay_cmd(ctx, wb, "replay-mm", vec, "mm@simd128", classes, extra=["--lifts", 7 if q else 10, "--groups", groups, "--force", "avx2"])
+    miri_vehicles(ctx, [vec] + ([nvec] if nm else []), classes, [])
+    ctx.evaluations += sum_exec(ctx, ["mm_exec", "prefilter_exec", "miri_exec"])
 
 
 def c03(ctx):
@@ -492,11 +499,14 @@ def c11(ctx):
     ctx.traces += n + pn
     ctx.nontrivial += sum(1 for v in C.read_vectors(pvec) if v["find"] >= 0)
     replay_cmd(ctx, binp, "replay-pp", pvec, "pp", {"result", "panic"})
-    mm_replay(ctx, binp, vec, "blocks", {"result", "panic"}, 5 if ctx.quick else 10, forces=("avx2",))
+    # "find" group: the private short-haystack fallback of the meta searcher's prefilter (searcher.rs) is reachable only
+    # through searches with needles > 32 bytes (lifted vectors, boundary truncations, the recorder's tail family)
+    mm_replay(ctx, binp, vec, "blocks,find", {"result", "panic"}, 7 if ctx.quick else 10, forces=("avx2", "sse2"))
     wb = simd128_bin(ctx)
     if wb:
-        replay_cmd(ctx, wb, "replay-mm", vec, "mm@simd128", {"result", "panic"}, extra=["--lifts", 5, "--groups", "blocks", "--force", "avx2"])
+        replay_cmd(ctx, wb, "replay-mm", vec, "mm@simd128", {"result", "panic"}, extra=["--lifts", 7, "--groups", "blocks,find", "--force", "avx2"])
     miri_vehicles(ctx, [vec], {"result", "panic"}, [])
+    lib_traces(ctx, "sub", "find", "api", 800 if ctx.quick else 8000, "sub", forces=("avx2", "sse2"))
     # I->S at real constants: pair offsets up to 254, occurrences in the last overlapping chunk; TLC checks the C11 predicate
     lib_traces(ctx, "pre", "pre", "all", 1500 if ctx.quick else 15000, "pre", forces=("avx2",))
     ctx.evaluations += sum_exec(ctx, ["pp_scaled_exec", "pp_real_exec", "prefilter_exec", "miri_exec"])
